@@ -142,12 +142,13 @@ class QueueSink(Sink[Any]):
         self._foreach = foreach
 
     def write(self, item: Any) -> None:
-        try:
-            item = (item if self._foreach else [item])
-            for i in item:
+        #only errors of the queue itself (e.g., a closed queue) are ignored. Errors raised while
+        #iterating the given items belong to whoever produced the items and must not be swallowed.
+        for i in (item if self._foreach else [item]):
+            try:
                 self._queue.put(i)
-        except (EOFError,BrokenPipeError,AssertionError):
-            pass
+            except (EOFError,BrokenPipeError,AssertionError):
+                break
 
 class LambdaSink(Sink[Any]):
     """A sink which passes written items to a callable function."""
